@@ -205,6 +205,22 @@ cfg["C31"] = {
     "assumptions": [common_stubs + "; docker client: in-harness model capturing the UpdateConfig; mapstructure.Decode: structural model; math.Modf/Round on grid floats: exact integer formulas"],
 }
 
+cfg["C29"] = {
+    "title": "File transfers deliver identical content and always finish", "design_ref": "DESIGN.md §4 C29",
+    "runs": [{"dir": "rpc", "quick": P("VerifChunks", "chunks=3"), "thorough": P("VerifChunks", "chunks=3", "chunks=6"), "samples": 4}],
+    "bounds": "chunking only: content is an abstract byte slice of SYMBOLIC length L in [0, 3*2048+3] (thorough 6*2048+6): every L in range at once, including 0, below/at/above multiples of the chunk size; owner, mode symbolic",
+    "outside": "pipes, per-target goroutines, engine failures, completion and the byte-identity of what the engine writes (I/O and concurrency in rpc.go / sendlarge.go); the empty file yields zero chunks, whether the receiving side then creates the file is not decided here",
+    "assumptions": [common_stubs + "; abstract slices support len, cap and bounds-checked re-slicing only (the chunker never reads bytes)"],
+}
+cfg["C36"] = {
+    "title": "Client watch streams retry transparently", "design_ref": "DESIGN.md §4 C36",
+    "runs": [{"dir": "client/interceptor", "quick": P("VerifStreamRetry", "max=1,recv=2,listed=1", "max=0,recv=2,listed=1", "max=1,recv=1,listed=0"),
+              "thorough": P("VerifStreamRetry", "max=1,recv=2,listed=1", "max=0,recv=2,listed=1", "max=1,recv=1,listed=0", "max=2,recv=2,listed=1", "max=1,recv=3,listed=1"), "samples": 3}],
+    "bounds": "retry budget Max in {0,1,2}; up to 3 RecvMsg calls by the caller; every server-side outcome symbolic per call: message / EOF / error / context.Canceled, reopen ok/fail, re-send ok/fail",
+    "outside": "real gRPC transport and back-off timing: backoff.Retry is modelled by its contract (repeat until nil or the policy says Stop; no sleeping), ExponentialBackOff by a constant delay; cancellation observed only through the context.Canceled error (ctx.Done() is not modelled); NewUnaryRetry",
+    "assumptions": [common_stubs + "; grpc.ClientStream / Streamer: in-harness models; sync.RWMutex: real SSA over sequential atomics"],
+}
+
 meta = {
     "C01": "Every feasible path of strategy.Deploy and the five real strategy functions (real container/heap and sort SSA) is executed with capacities, counts, need, limit, usage and rate symbolic; on each path z3 proves the plan assertions (only candidates, 0<=d<=capacity, exact totals, EACH/FILL selection sizes, AUTO node limit) for all values inside the bounds, or returns a model that is replayed natively. Bounded by node count and, for AUTO/GLOBAL, by need.",
     "C02": "Same exploration; on every path z3 proves err==nil <=> a harness-side reference feasibility predicate (saturating sums, no wrap) and that a refusal returns no plan.",
@@ -220,6 +236,8 @@ meta = {
     "C10": "The real ReallocResource / RemoveWorkload / DissociateWorkload (with the real utils.Txn, lock wrappers and node selection) are executed against an abstract ledger world with a symbolic single fault; z3 proves usage = sum of recorded workloads after every outcome, for all symbolic amounts.",
     "C11": "Same executions; when (a part of) the operation reports failure, z3 proves that records, amounts, containers and usage equal the pre-state for every fault position.",
     "C16": "wal.Hydro.Log/Recover/recover/decodeEvent run from real SSA over a model KV; operation sequences and all handler outcomes are symbolic; z3-decided paths prove handlers run only for logged-and-uncommitted events, in logging order, at most once per recovery, removal iff handled or unnecessary, ids strictly increasing.",
+    "C29": "rpc.toSendLargeFileChunks is executed on a content slice whose LENGTH is a symbolic integer; z3 proves for every length in range that the chunks are consecutive, non-empty, at most 2048 bytes, cover [0,L) exactly and carry size/targets/owner/mode.",
+    "C36": "interceptor.NewStreamRetry and retryStream.{SendMsg,RecvMsg,getStream,setStream} are executed against model streams with symbolic per-call outcomes; z3-decided paths prove raw stream for unlisted methods, re-send of the original request on the reopened stream, messages from the newest stream, reopen attempts within Max+1, no retry after context.Canceled.",
     "C31": "docker.makeResourceSetting and (*Engine).VirtualizationUpdateResource are executed with symbolic CPU (1/64 grid), memory, cpu map and NUMA node; z3 proves cpuset = exactly the allocated cores, cpuset-mems = NUMA node, quota -1 when bound, shares = round(1024*frac), quota = cpu*period when unbound, memory caps.",
     "C17": "utils.Txn and utils.PCR are executed for every outcome vector and caller-cancellation point (symbolic Booleans / choices, complete finite space); z3 decides each branch; assertions: then iff cond ok, rollback exactly once iff a step failed with the right flag, first failure returned, rollback context not cancelled by the caller.",
     "C20": "The lock wrappers (withNodesPodLocked, withNodeOperationLocked, withWorkloadsLocked) and the sequential ReallocResource are executed over symbolic include/id lists and pod assignments with recording locks; the acquisition trace must be strictly ascending within pod locks and within workload locks, pod before workload, and everything released.",
